@@ -641,6 +641,23 @@ func (n *simNet) gc() {
 	n.conns = keep
 }
 
+// newestConnID returns the id of the most recently dialled live connection
+// between two hosts (0 if none).
+func (n *simNet) newestConnID(a, b string) int {
+	n.mu.Lock()
+	defer n.mu.Unlock()
+	id := 0
+	for _, c := range n.conns {
+		if !((c.from == a && c.to == b) || (c.from == b && c.to == a)) || c.h[0].reset {
+			continue
+		}
+		if int(c.id) > id {
+			id = int(c.id)
+		}
+	}
+	return id
+}
+
 // releaseNewest releases everything pending on the most recently dialled live
 // connection between two hosts (in either direction), leaving older ones alone.
 func (n *simNet) releaseNewest(a, b string) int {
